@@ -238,6 +238,19 @@ void mc_nontrivial(uint64_t h)
 	if (set_insert(ntset, ntset_bits, h)) __sync_fetch_and_add(&S->nontrivial, 1);
 }
 
+void mc_abort_execution(void)
+{
+	fflush(stdout); fflush(stderr);
+	if (replay) {
+		obs[obslen] = 0;
+		printf("OBS %s\nRESULT %s (aborted)\n", obs, exec_failed ? "FAIL" : "OK");
+		fflush(stdout);
+		_exit(exec_failed ? 3 : 0);
+	}
+	if (!exec_failed) record_failure("harness:abort-without-failure", "mc_abort_execution called with no mc_fail");
+	_exit(77);
+}
+
 int mc_choose(int n, int cost, const char *label)
 {
 	(void)label;
@@ -535,7 +548,7 @@ int mc_main(int argc, char **argv, const struct mc_config *cfg)
 	for (int w = 0; w < W; w++) S->slots[w].pid = spawn(w, 0);
 	uint64_t last[MAXWORK] = {0}; double lastt[MAXWORK];
 	for (int w = 0; w < W; w++) lastt[w] = now_real();
-	int live = W, crashes = 0;
+	int live = W, crashes = 0, aborts = 0;
 	while (live > 0) {
 		int st; pid_t p = waitpid(-1, &st, WNOHANG);
 		if (p > 0) {
@@ -543,6 +556,12 @@ int mc_main(int argc, char **argv, const struct mc_config *cfg)
 			if (w == W) continue;
 			struct slot *sl = &S->slots[w];
 			if (WIFEXITED(st) && WEXITSTATUS(st) == 0) { sl->pid = 0; live--; continue; }
+			if (WIFEXITED(st) && WEXITSTATUS(st) == 77) {   /* mc_abort_execution: failure already recorded */
+				aborts++;
+				if (aborts > 200 || S->stop) { sl->pid = 0; live--; S->stop = 1; continue; }
+				sl->running = 0; sl->pid = spawn(w, 1); lastt[w] = now_real();
+				continue;
+			}
 			/* abnormal end: attribute to the published vector */
 			char key[200], tail[1100];
 			if (WIFSIGNALED(st)) snprintf(key, sizeof key, "crash:signal-%d", WTERMSIG(st));
